@@ -1,6 +1,6 @@
 """C01 - messaging transports deliver exactly the accepted messages, whole, in order."""
 import json
-from gen import common, framing
+from gen import common, framing, ux
 
 LEAN_MODULE = "XcmModel.Props.C01"
 THEOREMS = [
@@ -9,6 +9,7 @@ THEOREMS = [
     "XcmModel.C01.sendInv_run", "XcmModel.C01.recvInv_run",
     "XcmModel.C01.C01_exact_delivery", "XcmModel.C01.C01_no_more_than_accepted",
     "XcmModel.C01.C01_never_partial",
+    "XcmModel.Ux.inv_run", "XcmModel.C01.C01_ux_exact_delivery",
 ]
 
 
@@ -34,6 +35,8 @@ def run(ctx):
                     ctx.nontriv((o, l))
             if k == 0 and variant == "tcp":
                 ctx.sample({"harness": "unit_framing_tcp", "ops": ops[:10], "model_out": m[:10]})
+    ux.run_part(ctx, 30 if quick else 1500, "c01")
+    ctx.rule += "; unit_ux: the real ux_send/ux_receive/ux_update of xcm_tp_ux.c with scripted kernel send()/recv() (record accepted / EAGAIN / EINTR / errors; records of any size against any capacity) vs the Lean Ux model + monitor"
 
 
 def replay(path):
